@@ -19,6 +19,24 @@ CHECKS = {
         note="same trusted base as C01; variant E only for programs made of column-independent operators (list in vlib/props/c04.py)",
         ref="§3 C04",
     ),
+    "C06": dict(
+        technique="property-based testing with a validity predicate over every SSA value x stage (divisions/npartitions/lengths vs all computed partitions)",
+        text="Generated programs; every intermediate collection at 4 stages is executed with an all-keys executor and its reported divisions, npartitions, len/shape/size and per-partition lengths are compared with the computed partitions. Bounded exploration.",
+        note="divisions passed by the harness to from_map/from_delayed are correct by construction; count reports are skipped where the query itself is ambiguous (partial head of an algorithm-partitioned frame)",
+        ref="§3 C06",
+    ),
+    "C07": dict(
+        technique="property-based testing with a schema predicate over every SSA value x stage x partition",
+        text="Generated programs; declared container type, labels, names and dtype kinds of every intermediate collection at 4 stages are compared with the computed result and each partition, and with the schema declared before optimization. Bounded exploration.",
+        note="int/bool<->float/object promotion and None-vs-NaN names (pandas 3 string inference) are tolerated; no user-supplied meta is generated",
+        ref="§3 C07",
+    ),
+    "C14": dict(
+        technique="differential property-based testing fuse=True vs fuse=False per output partition over generated blockwise DAGs",
+        text="Generated DAGs of partition-wise operators (shared nodes, broadcast reductions, scalar chains, segments between shuffles): npartitions, divisions, schema and every partition of every intermediate value must be identical with and without fusion, also after fusing twice (nested groups). Bounded exploration.",
+        note="row order inside disk-shuffled partitions is compared as a multiset",
+        ref="§3 C14",
+    ),
     "C09": dict(
         technique="property-based testing with a validity predicate over materialised task graphs (generated programs x stages, sibling-variant templates)",
         text="For every stage of generated programs the graph dict is scanned: output keys, closure of key references incl. fused sub-graphs, acyclicity, per-expression layer collisions (also across several values of one program computed together), planner objects, cloudpickle, execution. Bounded exploration.",
